@@ -264,7 +264,11 @@ func (t *FnTrans) phiVal(phi *ssa.Phi, b *ssa.BasicBlock, preds []*ssa.BasicBloc
 	}
 	n := q(phi.Name())
 	t.define(n, t.sortOf(phi.Type()), m)
-	return Val{S: n}
+	r := Val{S: n}
+	if _, isSig := t.resolve(phi.Type()).Underlying().(*types.Signature); isSig && phi.Comment != "" {
+		r.Nm = phi.Comment // local function variable: callback contract by its source name
+	}
+	return r
 }
 
 // termOf: SMT term of a value; materialises pointers where possible.
@@ -365,6 +369,50 @@ func (t *FnTrans) loopHead(b *ssa.BasicBlock, l *loopInfo) {
 				t.fail("internal: loop write-set component %s has no sort", c)
 			}
 			t.cur.H[c] = t.freshVersion(c, "@L")
+		}
+	}
+	// automatic loop frame: a component written only through loop-invariant bases keeps its
+	// pre-loop content everywhere else
+	if !l.all {
+		for c := range l.writes {
+			if l.viaBad[c] || len(l.via[c]) == 0 || c == "$alloc" {
+				continue
+			}
+			s := t.compSort[c]
+			if !strings.HasPrefix(s, "(Array Int ") {
+				continue
+			}
+			var conds []string
+			ok := true
+			for _, v := range l.via[c] {
+				val, has := t.vals[v]
+				if !has {
+					if _, isC := v.(*ssa.Const); !isC {
+						if _, isP := v.(*ssa.Parameter); !isP {
+							ok = false
+							break
+						}
+					}
+					val = t.val(v)
+				}
+				term := t.termOfOpt(val)
+				if term == "" {
+					ok = false
+					break
+				}
+				if strings.HasPrefix(c, "E.") {
+					term = app("s.base", term)
+				}
+				conds = append(conds, not(eq("lf$r", term)))
+			}
+			if !ok {
+				continue
+			}
+			preTerm, has := pre.H[c]
+			if !has {
+				preTerm = t.entryVersion(c)
+			}
+			t.assume(fmt.Sprintf("(forall ((lf$r Int)) (! %s :pattern ((select %s lf$r))))", implies(and(conds...), eq(app("select", t.cur.H[c], "lf$r"), app("select", preTerm, "lf$r"))), t.cur.H[c]))
 		}
 	}
 	// allocation counter only grows
